@@ -248,25 +248,42 @@ func (d *Daemon) StepTo(h uint32) (int64, string) {
 		break
 	}
 	seen := 0
-	deadline := time.After(60 * time.Second)
-	for seen < 2 {
+	deadline := time.After(90 * time.Second)
+	tick := time.NewTicker(3 * time.Millisecond)
+	defer tick.Stop()
+	for {
 		select {
 		case <-d.Fake.heightsCh:
 			seen++
 		case <-d.done:
-			seen = 2
+			seen = 1000
+		case <-tick.C:
 		case <-deadline:
 			return CommittedSynced(d.DBPath), "timeout waiting for the daemon"
 		}
+		if p := d.Panicked(); p != "" {
+			return CommittedSynced(d.DBPath), "panic: " + p
+		}
+		if seen < 2 {
+			continue
+		}
+		s := CommittedSynced(d.DBPath)
+		if s >= int64(h) {
+			return s, ""
+		}
+		// not synced: a failure of this height has been logged (other clients of the fake node,
+		// e.g. the API's get-sync-status, also produce heights requests, so the signal count
+		// alone is not enough)
+		if msg := theHook.Last(); msg != "" && seen >= 2 {
+			if s2 := CommittedSynced(d.DBPath); s2 >= int64(h) {
+				return s2, ""
+			}
+			return s, msg
+		}
+		if seen >= 1000 {
+			return s, "daemon goroutine ended"
+		}
 	}
-	if p := d.Panicked(); p != "" {
-		return CommittedSynced(d.DBPath), "panic: " + p
-	}
-	s := CommittedSynced(d.DBPath)
-	if s >= int64(h) {
-		return s, ""
-	}
-	return s, theHook.Last()
 }
 
 func tempDir(prefix string) string {
